@@ -16,6 +16,14 @@ uint64_t arrived[ROUNDS];   /* ghost: fibers that have entered their k-th wait *
 uint64_t serials[ROUNDS];   /* ghost: fibers told SERIAL in round k */
 
 void vm_init(void) { k_init(); fiber_barrier_init(&bar, NF); }
+#ifdef COUNTER_START
+/* the barrier has been in use for a long time: the arrival counter starts at a symbolic round boundary around 2^32 */
+void vm_setup(void) {
+  uint64_t k = vm_nondet();
+  vm_assume(k >= (0xfffffff0UL / NF) && k <= (0x10000000fUL / NF));
+  bar.counter = k * NF;
+}
+#endif
 
 static inline void body_n(int rounds) {
   for (int k = 0; k < rounds; k++) {
